@@ -114,6 +114,9 @@ func c08Run(t *testing.T, wl any, sc SchedCfg) *Result {
 					blocks--
 					h.mu.Unlock()
 					b.Unblock()
+					if k%2 == 1 {
+						b.Unblock() // documented as safe to call more than once
+					}
 					lastUnblock = e.S.Steps
 				}
 			})
